@@ -1,7 +1,9 @@
 //! zv - conformance harness binding the TLA+ specification to the zerv implementation.
 //!   zv replay <module> <tlc-output>      TLC-generated behaviours -> real calls, compare
 //!   zv record <module> <seed> <n> <out>  seeded random real calls -> ndjson trace for TLC
+mod pep440;
 mod sanitizer;
+mod semver;
 mod wire;
 
 fn main() {
@@ -16,6 +18,10 @@ fn main() {
     match (args[1].as_str(), args[2].as_str()) {
         ("replay", "sanitizer") => sanitizer::replay(rest),
         ("record", "sanitizer") => sanitizer::record(rest),
+        ("replay", "pep440") => pep440::replay(rest),
+        ("record", "pep440") => pep440::record(rest),
+        ("replay", "semver") => semver::replay(rest),
+        ("record", "semver") => semver::record(rest),
         _ => {
             eprintln!("unknown command {} {}", args[1], args[2]);
             std::process::exit(2);
